@@ -13,7 +13,7 @@ from numba_scfg.core.datastructures.basic_block import (
 )
 
 from ..canon import cdump
-from ..families import as_named, enum_closed, make_scfg
+from ..families import as_named, entry_name, enum_closed, labelings, make_scfg, set_labeling
 from ..hier import Hier
 from ..kernel import shard_map
 from ..runner import Acc
@@ -277,28 +277,28 @@ def explore(g, pre, depth, maxk, acc: Acc, fam):
                 apply_op(nxt, op)
             except Failure as f:
                 acc.viol(PROP, f"{PROP}/{f.clause}", f"after {list(history)} on {g}: {op}: {f.detail}", (g, pre, h2), site=op[0],
-                         case={"graph": [list(r) for r in g], "pre_restructured_loops": pre, "history": [list(map(_j, o)) for o in h2]})
+                         case=_case(g, pre, h2))
                 continue
             except AssertionError as e:
                 et, site = exc_fingerprint(e)
                 if op[0] == "join_tails_and_exits" and "unreachable" in str(e):
                     acc.viol(PROP, f"{PROP}/jte/unsupported-shape", f"{op}: join_tails_and_exits has no case for {len(op[1])} tail(s) and {len(op[2])} exits",
-                             (g, pre, h2), site=site, case={"graph": [list(r) for r in g], "pre_restructured_loops": pre, "history": [list(map(_j, o)) for o in h2]})
+                             (g, pre, h2), site=site, case=_case(g, pre, h2))
                 else:
                     acc.viol(PROP, f"{PROP}/raises/{et}", f"after {list(history)} on {g}: {op} raised {et} at {site}", (g, pre, h2), site=site,
-                             case={"graph": [list(r) for r in g], "pre_restructured_loops": pre, "history": [list(map(_j, o)) for o in h2]})
+                             case=_case(g, pre, h2))
                 continue
             except Exception as e:  # noqa: BLE001
                 et, site = exc_fingerprint(e)
                 acc.viol(PROP, f"{PROP}/raises/{et}", f"after {list(history)} on {g}: {op} raised {et}: {e} at {site}", (g, pre, h2), site=site,
-                         case={"graph": [list(r) for r in g], "pre_restructured_loops": pre, "history": [list(map(_j, o)) for o in h2]})
+                         case=_case(g, pre, h2))
                 continue
             if path_preserving(h2):
-                r = product(G0, "0", Hier(nxt), "name", max_violations=1)
+                r = product(G0, entry_name(), Hier(nxt), "name", max_violations=1)
                 acc.counters["path_products"] += 1
                 for clause, detail, path in r.violations:
                     acc.viol(PROP, f"{PROP}/paths/{clause}", f"after {list(h2)} on {g}: {detail}", (g, pre, h2, "paths"), site=op[0],
-                             case={"graph": [list(r_) for r_ in g], "pre_restructured_loops": pre, "history": [list(map(_j, o)) for o in h2]})
+                             case=_case(g, pre, h2))
             acc.outcomes.add(op[0])
             yield op, (h2, nxt)
 
@@ -316,9 +316,20 @@ def _j(x):
     return list(x) if isinstance(x, tuple) else x
 
 
+def _case(g, pre, h2):
+    from ..families import get_labeling
+    d = {"graph": [list(r) for r in g], "pre_restructured_loops": pre, "history": [list(map(_j, o)) for o in h2]}
+    lab = get_labeling()
+    if lab is not None:
+        d["labeling"] = {"prefix": lab[0], "names": list(lab[1]), "insertion_order": list(lab[2])}
+    return d
+
+
 def _work(args):
-    g, pre, depth, maxk = args
+    g, pre, depth, maxk = args[:4]
+    lab = args[4] if len(args) > 4 else None
     acc = Acc()
+    set_labeling(lab)
     try:
         explore(g, pre, depth, maxk, acc, "E")
     except Exception as e:  # noqa: BLE001
@@ -326,6 +337,10 @@ def _work(args):
             acc.counters["initial_state_unbuildable"] += 1
         else:
             raise
+    finally:
+        set_labeling(None)
+    if lab is not None:
+        acc.counters["relabelled_initial_graphs"] += 1
     return acc
 
 
@@ -333,13 +348,17 @@ def run(tier: str, seed: int):
     units = []
     # (exact number of blocks, depth, max |P| and |S|)
     if tier == "quick":
-        plan = [(1, 2, 2), (2, 2, 2), (3, 2, 2), (4, 1, 2)]
+        plan = [(1, 3, 2), (2, 3, 2), (3, 2, 3), (4, 1, 3)]
     else:
         plan = [(1, 3, 2), (2, 3, 2), (3, 2, 3), (4, 2, 2), (5, 1, 2)]
     for n, depth, maxk in plan:
         for g in enum_closed(n):
             for pre in (False, True):
                 units.append((g, pre, depth, maxk))
+                # the same graph under other names / insertion orders (depth 1): the primitives sort predecessors and successors
+                if 3 <= n <= 4:
+                    for lab in labelings(n, "few"):
+                        units.append((g, pre, 1, maxk, lab))
     # "all graphs": blocks with three successors, several of them in S at once (outside the closed-CFG input domain of the
     # pipeline, inside the domain of the edit primitives)
     for g in WIDE:
@@ -370,7 +389,7 @@ def replay(case) -> Acc:
     try:
         scfg = build(g, case["pre_restructured_loops"], hist)
         if path_preserving(hist):
-            r = product(G0, "0", Hier(scfg), "name", max_violations=1)
+            r = product(G0, entry_name(), Hier(scfg), "name", max_violations=1)
             for clause, detail, path in r.violations:
                 acc.viol(PROP, f"{PROP}/paths/{clause}", detail, (g,))
     except Failure as f:
